@@ -222,7 +222,6 @@ class PathTemplateWriter:
 
     def record_stream_for_path(self, path):
         if self.current_path != path:
-            self.current_path = path
             log.info("Writing records to {!r}".format(path))
             self.rotate_existing_file(path)
             dst_dir = os.path.dirname(path)
@@ -231,6 +230,9 @@ class PathTemplateWriter:
             rs = RecordWriter(path)
             self.close()
             self.writer = rs
+            # only switch once the new writer exists: if rotating or opening fails, the next record for
+            # this path must try again instead of being written to the previous path's file
+            self.current_path = path
         return self.writer
 
     def write(self, record):
